@@ -59,18 +59,18 @@ type c12lResult struct {
 
 // liveUntrusted is a scripted untrusted Bitcoin peer.
 type liveUntrusted struct {
-	mu       sync.Mutex
-	ln       net.Listener
-	spec     C12LPeer
-	fp       *fakePeer // same-chain answers
-	alien    []*wire.BlockHeader
-	own      []*wire.MsgTx // transactions only this peer knows
-	badBlock func(k int) wire.Message
-	forkHdrs func() *wire.MsgHeaders
-	conns    int
-	done     chan struct{} // script finished (or connection ended)
-	doneOnce sync.Once
-	noRead   bool
+	mu            sync.Mutex
+	ln            net.Listener
+	spec          C12LPeer
+	fp            *fakePeer // same-chain answers
+	alien         []*wire.BlockHeader
+	own           []*wire.MsgTx // transactions only this peer knows
+	badBlock      func(k int) wire.Message
+	forkHdrs      func() *wire.MsgHeaders
+	conns         int
+	done          chan struct{} // script finished (or connection ended)
+	doneOnce      sync.Once
+	noRead        bool
 	sawGetHeaders bool
 }
 
